@@ -1,3 +1,5 @@
+use std::collections::HashSet;
+
 use ecow::EcoString;
 use id_arena::Id;
 use indexmap::IndexMap;
@@ -72,13 +74,27 @@ impl Record {
     }
 
     pub fn find_field(&self, symbol_map: &SymbolMap, name: &EcoString) -> Option<RecordFieldId> {
+        self.find_field_in(symbol_map, name, &mut HashSet::new())
+    }
+
+    // each ancestor is searched once: a class reached along several paths (diamonds, a parent
+    // named twice) would otherwise be searched once per path
+    fn find_field_in(
+        &self,
+        symbol_map: &SymbolMap,
+        name: &EcoString,
+        visited: &mut HashSet<RecordId>,
+    ) -> Option<RecordFieldId> {
         if let Some(field_id) = self.name_to_record_field.get(name) {
             return Some(*field_id);
         }
 
         for parent_id in &self.parent_list {
+            if !visited.insert(*parent_id) {
+                continue;
+            }
             let parent = symbol_map.record(*parent_id);
-            if let Some(field_id) = parent.find_field(symbol_map, name) {
+            if let Some(field_id) = parent.find_field_in(symbol_map, name, visited) {
                 return Some(field_id);
             }
         }
@@ -93,13 +109,25 @@ impl Record {
     }
 
     pub fn is_subclass_of(&self, symbol_map: &SymbolMap, other_id: RecordId) -> bool {
+        self.is_subclass_of_in(symbol_map, other_id, &mut HashSet::new())
+    }
+
+    fn is_subclass_of_in(
+        &self,
+        symbol_map: &SymbolMap,
+        other_id: RecordId,
+        visited: &mut HashSet<RecordId>,
+    ) -> bool {
         if self.parent_list.contains(&other_id) {
             return true;
         }
 
         for parent_id in &self.parent_list {
+            if !visited.insert(*parent_id) {
+                continue;
+            }
             let parent = symbol_map.record(*parent_id);
-            if parent.is_subclass_of(symbol_map, other_id) {
+            if parent.is_subclass_of_in(symbol_map, other_id, visited) {
                 return true;
             }
         }
